@@ -147,6 +147,17 @@ PROPS["C14"] = Prop(
 )
 PARAMS["C14"] = {"rule": "N in 0..=17, 31..=33, 1023, 1024, 1025, 2047..=2049, 3000, 4096 (covering the three strategies and their thresholds +-1) x every precision 0..=2N+2 for N <= 33, boundary and seeded precisions above x both cases x 2-3 byte patterns (never all-zero), with the faster-hex feature off and on. Non-trivial = N > 0 and precision != 0."}
 
+PROPS["C13"] = Prop(
+    "C13", ["GA.Props.C13"],
+    [Engine("cmp", scen.cmp_, sig=lambda l: " ".join(l.split()[:2]) + ("/same" if "same=1" in l else ""))],
+    trusted=[KERNEL, TRANSLATOR, HARNESS,
+             "modelled, not verified: core's `[T]` impls of PartialEq/PartialOrd/Ord/Hash/Debug (lexicographic order, length prefix, debug_list + PadAdapter) and the elements' own Debug output under each option set (tools/rustfmt.py) — both validated on every run by comparing the model's results with the real slice's; HashMap/BTreeMap are modelled as first-match search on hash+eq / order"],
+    assumptions=["`same` (what core::ptr::eq(self, other) answers) implies the operands are equal; zero-sized element arrays sharing an address are not generated",
+                 "the hasher stream is compared after flattening `write` call boundaries (write_usize is kept distinct as the length prefix)"],
+    nontrivial=lambda s, impl: " n=0 " not in s,
+)
+PARAMS["C13"] = {"rule": "element types u8, i32, f64 (NaN, +-inf, -0.0), String, GenericArray<i32,U2>, GenericArray<f64,U2>: all ordered pairs over a 3-letter alphabet for N in 0..=3 (N = 4: 2 letters in quick, 3 in thorough) plus every array against itself as the same object; seeded near-equal pairs for N in {2,3,4,8,16,33,100}; ==, !=, partial_cmp, <, <=, >, >=, cmp; recording-Hasher stream and DefaultHasher value for every array; Debug under 15 option sets ({:?}, {:#?}, width/alignment/fill, +, 0-pad, x/X, #x, precision) x 6 element types; HashMap and BTreeMap lookups by &[T]."}
+
 PROPS["C17"] = Prop(
     "C17", ["GA.Props.C17"],
     [Engine("serde", scen.serde, sig=lambda l: l.split()[0] + "/" + ("script" if "steps=" in l else "fmt"))],
